@@ -4,7 +4,7 @@ CONF = dict(
     cmd='c15',
     props='Props/C15.v',
     glue='Extract/GlueC15.v',
-    rule=('five case kinds. rand.intn: crypto.RandIntn(n) with crypto/rand.Reader replaced by a scripted tape of 32-bit words: n in 1..12, 2^k-1/2^k/2^k+1, 3*2^k, MaxInt32-3..MaxInt32, '
+    rule=('five case kinds (and mp.race in the thorough tier). rand.intn: crypto.RandIntn(n) with crypto/rand.Reader replaced by a scripted tape of 32-bit words: n in 1..12, 2^k-1/2^k/2^k+1, 3*2^k, MaxInt32-3..MaxInt32, '
           'above 2^31 up to MaxInt64 (64-bit branch, incl. odd word counts), n <= 0 (panic); words at, one below, one above and inside the rejection threshold 2^32 mod n, multiples '
           'of n, 0..3, 2^32-1..2^32-3, random; live and cancelled contexts. rand.sample: crypto.Sample(k, n) for k,n in -2..40 (k <, =, > n; 0) on tapes built per draw from the same word '
           'classes, short tapes, cancelled contexts; the pick(dst, src) calls are recorded. mp.hist: histories of 2..10 rounds of the real client.MeasureClockOffsetSCION with 0..24 real '
@@ -22,9 +22,11 @@ CONF = dict(
           'of each IA succeeds or fails, path sets change between refreshes (paths withdrawn, added, duplicated fingerprints, reordered, all withdrawn, up to 128), rounds without a refresh in between '
           '(the slice handed out must be a copy: the round overwrites it), lookups with another source IA than the local one or without the refresh flag are refused / tagged; '
           'recorded per round: the (next hop, fingerprint) list Paths() returned and the round as in mp.hist; judged against the paths the daemon last reported. '
-          'mp.pather.dupia: the same with the server\'s IA listed two or three times among the destinations (two configured servers/peers in one AS)'),
+          'mp.pather.dupia: the same with one IA (the server\'s or another) listed two or three times among the destinations, anywhere in the list (two configured servers/peers in one AS). '
+          'mp.race (thorough tier, command c15race built with -race): 600 plain and 150 pather histories in which at least two clients of every round use NTS (all clients share the remote '
+          'address, given in 16-byte form; NTS replaces it by the address the key exchange names) run in a child process under the Go race detector; one case: did it report a data race'),
     assumptions=['paths are identified by their index in the offered slice; at most MaxInt64 paths',
-                 'Pather: the destination IAs it is started with are pairwise distinct (theorems C15_pather_offers_daemon_paths / _distinct / _oracle_holds_for_model; without it the model and the code offer every path once per occurrence: kind mp.pather.dupia) and the daemon reports each path once per lookup; a failing lookup counts as no paths, a refresh whose LocalIA fails changes nothing; wildcard destinations (update panics) are not driven',
+                 'Pather: the daemon reports each path once per lookup (identities pairwise distinct); a failing lookup counts as no paths, a refresh whose LocalIA fails changes nothing; destinations may repeat (each AS is looked up once, 6f9a1f9); wildcard destinations (update panics) are not driven',
                  'a client without a filter reports the raw offset of its exchange: the model is given the observed offsets of such clients (their number, the request forms, the state and the midpoint are checked)',
                  'NTS is transparent to the path assignment: an NTS client differs only in the exchange (authenticated by the scripted peer with the keys of its NTS-KE session); server in another AS than the client (a server in the own AS makes an NTS client replace its path by the direct one)',
                  'the random generator is any finite list of 32-bit words followed by a constant word (every eventually constant stream); a constant tail that is always rejected makes the model answer Hang',
@@ -34,11 +36,11 @@ CONF = dict(
                  'timestamps of the reported measurement are not modelled (only the offset and the error)'],
     trusted=['modelled, not verified: crypto/rand.Read (reads len(b) bytes from rand.Reader), snet.Fingerprint (equal metadata interfaces <=> equal fingerprint, empty for no metadata), '
              'slices.SortFunc inside measurements.FaultTolerantMidpoint (a sorted permutation, see C02), goroutines/channels of the collection step (every participant sends exactly one Measurement)',
-             'the scripted SCION NTP peer of the harness (gopacket/slayers encoding of replies with an empty SCION path; NTS replies built with nts.ProcessRequest/NewResponsePacket, NTS-KE records over crypto/tls), the scripted daemon.Connector, and the kernel UDP loopback (IPv4, and IPv6 ::1 for histories with NTS clients)'],
+             'the scripted SCION NTP peer of the harness (gopacket/slayers encoding of replies with an empty SCION path; NTS replies built with nts.ProcessRequest/NewResponsePacket, NTS-KE records over crypto/tls), the scripted daemon.Connector, and the kernel UDP loopback; the Go race detector (mp.race)'],
     technique=('Coq proofs over a Gallina model of crypto.RandIntn/Sample and of MeasureClockOffsetSCION: permutation invariant of the sticky loop with swap-remove, reservoir invariant '
                '(slots hold distinct earlier candidates, sources strictly increase) by induction over the pick list for every tape, counting of residue classes of accepted words by '
                'Euclidean division (nia), permutation invariance of the fault-tolerant midpoint, counting of enumerated draw vectors by induction over the draws, generalised over the reservoir state (a k-subset T with t members still to come is reached by t! (n-k)!/(i-k+t)! of the vectors from draw i on), giving (n-k)! vectors per k-subset, and the per-candidate inclusion probability k/n; '
-               'a functional model of the Pather (association list in destination order) with the theorem that for distinct destinations Paths() is the last reported answer after any refresh sequence, and transfer of the round oracle from positions to path identities; '
+               'a functional model of the Pather (association list of the destinations in first-occurrence order) with the theorem that Paths() is the last reported answer after any refresh sequence, for every destination list, and transfer of the round oracle from positions to path identities; '
                'the oracle is proved to accept every round of the model; differential execution of the extracted model against the real functions on scripted tapes and against the '
                'real MeasureClockOffsetSCION (fed directly or through the real Pather) over loopback SCION exchanges'),
     level_text=('Theorems hold for all numbers of clients and offered paths, all client states (in interleaved mode or not, previous path present / withdrawn / shared with other clients / '
@@ -53,5 +55,6 @@ CONF = dict(
                  'in interleaved form), otherwise its filter is reset once and its first request is in basic form; errNoPath iff nobody can take part; offset = fault-tolerant midpoint '
                  'over the last filter results of the participants that measured something; errNoMeasurement iff none did. mp.pather: the same clauses with `offered` = the paths the scripted daemon last reported for the server\'s IA (the observed next hops are translated into positions in that list, an unknown next hop is rejected), so a path handed out twice, a stale or a missing path shows as two clients on one path / too many / too few participants. rand.intn: result in [0,n) and congruent to the accepted word; rand.sample: min(k,n) slots filled from distinct candidates'),
     timeout_quick=900, timeout_thorough=3000,
+    extra_thorough=[dict(cmd='c15race', race=True)],
     min_cases={'mp.hist': 900, 'mp.pather': 450, 'mp.pather.dupia': 45, 'rand.intn': 9000, 'rand.sample': 3000},
 )
